@@ -462,7 +462,7 @@ func Main(r *core.Run) {
 		maxLen = 3
 	}
 	ps := paths(maxLen)
-	r.Rule(fmt.Sprintf("%d graphs (trees ≤%d nodes, every cut ≤2 into blocks, dangling links) × every path of ≤%d segments over %v (%d paths: existing positions, new keys, list append, out of range, through links, missing parents, scalar in the middle) × replacement {scalar,map,list,identity,remove} × createParents {on,off}; WalkTransforming with every selector ≤3 clauses and five record-shaped ones × {identity, constant, wrap}, each compiled selector used twice (second result = first), over the graphs plus record lists in which one selector step meets several nodes; sequences of 2 focused transforms. Non-trivial = target reachable (result compared structurally); distinct by (graph, path, replacement, flag).", len(gs), map[bool]int{true: 4, false: 5}[quick], maxLen, segAlphabet, len(ps)))
+	r.Rule(fmt.Sprintf("%d graphs (trees ≤%d nodes, every cut ≤2 into blocks, dangling links) × every path of ≤%d segments over %v (%d paths: existing positions, new keys, list append, out of range, through links, missing parents, scalar in the middle) × replacement {scalar,map,list,identity,remove} × createParents {on,off}; WalkTransforming with every selector ≤3 clauses and five record-shaped ones × {identity, constant, wrap}, each compiled selector used twice (second result = first), over the graphs plus record lists in which one selector step meets several nodes; sequences of 2 focused transforms; typed nodes (reflection binding, every family root type's richest values): identity focused transform at every position and identity walking transform, result and input compared in both views. Non-trivial = target reachable (result compared structurally); distinct by (graph, path, replacement, flag).", len(gs), map[bool]int{true: 4, false: 5}[quick], maxLen, segAlphabet, len(ps)))
 	r.Assume("reference functional update mc/props/c16 (replace in place, new map key at the end, '-' appends, nil removes, parents only when requested, links re-hashed by hand with crypto/sha256 over the reference DAG-CBOR encoding)")
 	r.Assume("unspecified and excluded: removal of the root itself; non-canonical list indices (\"-1\", \"01\")")
 	core.ParallelFor(len(gs), func(gi int) {
@@ -499,12 +499,17 @@ func Main(r *core.Run) {
 			r.OutcomeN(k, v)
 		}
 	})
+	typedTransforms(r, quick)
 	r.Sample(FCase{Graph: gs[len(gs)/2], Segs: []string{"0", "-"}, Repl: "map", CreateParents: true})
 	r.Sample(FCase{Graph: gs[len(gs)-5], Segs: []string{"a"}, Repl: "remove"})
 }
 
 func Replay(r *core.Run, mode string, raw json.RawMessage) {
 	switch mode {
+	case "typed":
+		var c TCase
+		json.Unmarshal(raw, &c)
+		replayTyped(r, c)
 	case "focused":
 		var c FCase
 		if err := json.Unmarshal(raw, &c); err != nil {
